@@ -2,6 +2,7 @@
 #pragma once
 #include "seq_common.h"
 #include <ctype.h>
+#include <wchar.h>
 extern "C" {
 #include "a/str.h"
 #include "a/utf.h"
@@ -150,7 +151,9 @@ struct StrTarget
         }
         case 2: return (size_t)(v % (3 * cap + 2)) % 80;
         case 3: return 0;
-        default: return (size_t)(v % 33);
+        default:
+            if (maxlen >= 100000 && (v & 1)) { c.st.add("probe.str_huge_block"); return 20000 + (size_t)(v % 50000); } // blocks larger than half the capacity of a large string
+            return (size_t)(v % 33);
         }
     }
     std::string payload(size_t n, int64_t seedv, bool nul_free)
@@ -302,8 +305,17 @@ struct StrTarget
             int const chv = 'A' + (int)(v % 26);
             double const dv = (double)iv / 8.0;
             char const *word = WORDS[v % 5];
-            switch ((int)(((o.a[0] % 14) + 14) % 14))
+            bool formatter_fails = false;
+            wint_t const wc = (wint_t)(0x100 + v % 0x700); // lives as long as the deferred call
+            switch ((int)(((o.a[0] % 15) + 15) % 15))
             {
+            case 14:
+            { // the C formatter itself fails (no multibyte form of this wide character in the "C" locale)
+                FMT_CASE("x%lcy", wc);
+                formatter_fails = reflen < 0;
+                if (!formatter_fails) c.st.add("probe.wide_char_formatted"); else c.st.add("fault.formatter_refuses_conversion");
+                break;
+            }
             case 0: FMT_CASE("%d", iv); break;
             case 1: FMT_CASE("%5d", iv); break;
             case 2: FMT_CASE("%-8s|", word); break;
@@ -342,6 +354,18 @@ struct StrTarget
                 break;
             }
 #undef FMT_CASE
+            if (formatter_fails)
+            { // nothing is produced: the call must report the failure (a negative value) and leave the string as it is
+                c.site(name);
+                uint64_t const fz = SA.fired_total;
+                int const r2 = call();
+                if (SA.fired_total > fz) break; // an injected allocation failure on top: covered elsewhere
+                if (r2 >= 0) { c.fail("formatter-failure-not-reported", name, "the C formatter refuses the conversion (returns %d) but the append returned %d", reflen, r2); break; }
+                bool const keep_t = x.t; x.t = false; // the spare bytes may have been written by the refused attempt; content and length may not
+                check(x, name);
+                x.t = keep_t && a_str_len(s) < a_str_mem(s) && a_str_ptr(s)[a_str_len(s)] == 0;
+                break;
+            }
             int ret = 0;
             uint64_t f0 = 0;
             int rc = run.api(name, [&] {
@@ -475,6 +499,17 @@ struct StrTarget
         }
         case S_SETM:
         {
+            if (SA.passthrough && (o.a[2] % 5) == 0 && SA.fmode == SimAlloc::F_NONE)
+            { // an absurd request that the REAL default allocator refuses
+                uint64_t const rf0 = SA.real_failures;
+                c.site("a_str_setm");
+                int const ret = a_str_setm(s, (size_t)1 << 60);
+                if (SA.real_failures == rf0) break;
+                c.st.add("probe.real_allocator_refusal_str");
+                if (ret == 0) { c.fail("allocation-failure-not-reported", "a_str_setm", "the default allocator refused 2^60 bytes but the call reported success"); break; }
+                check(x, "a_str_setm");
+                break;
+            }
             uint64_t const v = (uint64_t)(o.a[0] < 0 ? -o.a[0] : o.a[0]);
             size_t const m = (size_t)(v % (maxlen + 40));
             bool const raw = (o.a[1] & 3) == 3 && m > len; // a_str_setm_ is the unconditional variant: only above the live content (DESIGN.md 7)
@@ -533,6 +568,20 @@ struct StrTarget
             std::string other;
             switch (v % 5) { case 0: other = x.M; break; case 1: other = x.M.substr(0, x.M.size() / 2); break; case 2: other = x.M + "a"; break; case 3: other = x.M; if (!other.empty()) other[other.size() - 1] = (char)(other[other.size() - 1] + 1); break; default: other = payload(v % 7, (int64_t)v, true); break; }
             int got, want;
+            if ((v / 5) % 4 == 0 && len)
+            { // the other operand is a prefix of (or longer view into) the string's own buffer
+                size_t const k = (size_t)((v / 20) % (a_str_mem(s) + 1));
+                std::string oth(a_str_ptr(s), std::min(k, a_str_mem(s)));
+                // bytes beyond the length are indeterminate: only prefixes of the content make a defined comparison
+                if (k <= len)
+                {
+                    c.site("a_str_cmpn"); int g1 = a_str_cmpn(x.s, a_str_ptr(s), k); int w1 = ref_cmp(x.M, x.M.substr(0, k));
+                    if (sgn(g1) != w1) { c.fail("comparison-wrong", "a_str_cmpn", "comparing the string with the first %zu bytes of its own buffer gives sign %d, expected %d", k, sgn(g1), w1); break; }
+                    c.site("a_str_cmp_"); int g2 = a_str_cmp_(a_str_ptr(s), k, a_str_ptr(s), len); int w2 = ref_cmp(x.M.substr(0, k), x.M);
+                    if (sgn(g2) != w2) { c.fail("comparison-wrong", "a_str_cmp_", "comparing two views of one buffer (%zu and %zu bytes) gives sign %d, expected %d", k, len, sgn(g2), w2); break; }
+                    c.st.add("probe.compare_with_own_buffer");
+                }
+            }
             switch ((int)(((o.a[0] % 4) + 4) % 4))
             {
             case 0: c.site("a_str_cmp"); got = a_str_cmp(x.s, y.s); want = ref_cmp(x.M, y.M); if (sgn(got) != want) c.fail("comparison-wrong", "a_str_cmp", "sign %d, bytewise-then-length order says %d", sgn(got), want); break;
@@ -621,7 +670,7 @@ static inline void gen_str_plan(Rng &r, Plan &p, bool for_faults, int tier)
     p.set("alloc_move", r.chance(1, 2)); p.set("alloc_junk", r.chance(3, 4)); p.set("alloc_reuse", r.chance(1, 4));
     p.set("junk_seed", (int64_t)r.below(256));
     p.set("alloc_default", r.chance(1, 6));
-    static const int64_t ML[] = {8, 16, 40, 200, 600, 40, 200, 6000};
+    static const int64_t ML[] = {8, 16, 40, 200, 600, 40, 200, 6000, 40, 200, 600, 300000};
     p.set("maxlen", r.pick(ML));
     p.set("heap", r.chance(1, 2));
     bool en[S__COUNT];
